@@ -60,7 +60,7 @@ fn is_local(c: &AcceptCase, id: u32) -> bool {
     (c.n_ips >= 1 && id == local_id(c.ip0)) || (c.n_ips >= 2 && id == local_id(c.ip1))
 }
 
-fn run_accept(c: &AcceptCase) -> (bool, bool) {
+fn run_accept(c: &AcceptCase) -> (Result<(), AcceptSynchronizationError>, bool) {
     // Bloom filter: symbolic content at the bytes holding the server id's indices
     let mut bytes = [0u8; 512];
     let mut i = 0;
@@ -94,23 +94,24 @@ fn run_accept(c: &AcceptCase) -> (bool, bool) {
     ];
     let ips = &ips_all[..c.n_ips as usize];
     let res = snapshot.accept_synchronization(c.local_stratum, ips, bh::server_id_from_raw(c.sid));
-    (res.is_ok(), c.has_bloom && contains)
+    (res, c.has_bloom && contains)
 }
 
-/// The two ways in which the unchanged tree departs from the property (both reproduce natively):
+/// The two loop situations the property names explicitly (both were accepted before the fixes
+/// f6bea43: the code compared `source_id` only, and not at all when stratum == 1):
 ///  (a) the source names one of this daemon's addresses as ITS reference (it synchronises to us)
-///      at stratum > 1 — the code never looks at `reference_id`;
-///  (b) the source IS this daemon (source id = a local address) and reports stratum 1 — the code
-///      skips its only identifier comparison when stratum == 1.
-fn defect_refid(c: &AcceptCase) -> bool {
+///      at stratum > 1;
+///  (b) the source IS this daemon (source id = a local address) and reports stratum 1.
+fn loop_by_refid(c: &AcceptCase) -> bool {
     c.stratum > 1 && is_local(c, c.reference_id)
 }
-fn defect_self_stratum1(c: &AcceptCase) -> bool {
+fn self_at_stratum1(c: &AcceptCase) -> bool {
     c.stratum == 1 && is_local(c, c.source_id)
 }
 
-fn check_accept(c: &AcceptCase) {
-    let (ok, bloom_contains) = run_accept(c);
+fn check_accept(c: &AcceptCase) -> bool {
+    let (res, bloom_contains) = run_accept(c);
+    let ok = res.is_ok();
     if ok {
         assert!(c.stratum < c.local_stratum, "used source has a stratum below the local stratum");
         assert!(c.reach != 0, "used source is reachable");
@@ -118,39 +119,45 @@ fn check_accept(c: &AcceptCase) {
         assert!(!(c.stratum > 1 && is_local(c, c.reference_id)), "used source (stratum > 1) does not name this daemon as its reference");
         assert!(!bloom_contains, "used source's Bloom filter does not contain this daemon's server id");
     }
-    kani::cover!(ok, "a source is accepted");
-    kani::cover!(ok && c.has_bloom && c.n_ips == 2 && c.stratum > 1, "accepted with filter and two local addresses");
-    kani::cover!(!ok && bloom_contains && c.reach != 0 && c.stratum < c.local_stratum, "rejected because of the Bloom filter");
-    kani::cover!(!ok && is_local(c, c.source_id) && c.reach != 0 && c.stratum < c.local_stratum, "rejected as self");
+    // a loop is reported as a loop (unless the stratum check already rejected the source)
+    if c.stratum < c.local_stratum && (is_local(c, c.source_id) || loop_by_refid(c) || bloom_contains) {
+        assert!(res == Err(AcceptSynchronizationError::Loop), "a source that is this daemon or synchronises to it is rejected as a loop");
+    }
+    ok
 }
 
 harness! {
     #[kani::unwind(12)]
     fn c33_accept() {
         let c = any_case();
-        kani::assume(!defect_refid(&c));
-        kani::assume(!defect_self_stratum1(&c));
-        check_accept(&c);
+        let ok = check_accept(&c);
+        kani::cover!(ok, "a source is accepted");
+        kani::cover!(ok && c.has_bloom && c.n_ips == 2 && c.stratum > 1, "accepted with filter and two local addresses");
+        kani::cover!(!ok && c.has_bloom && c.reach != 0 && c.stratum < c.local_stratum && !is_local(&c, c.source_id) && !loop_by_refid(&c), "rejected because of the Bloom filter");
+        kani::cover!(!ok && is_local(&c, c.source_id) && c.reach != 0 && c.stratum < c.local_stratum, "rejected as self");
     }
 }
 
 harness! {
     #[kani::unwind(12)]
-    fn c33_accept_kf_refid() {
+    fn c33_accept_refid() {
         let c = any_case();
-        kani::assume(defect_refid(&c));
-        kani::assume(!defect_self_stratum1(&c));
-        check_accept(&c);
+        kani::assume(loop_by_refid(&c));
+        let ok = check_accept(&c);
+        assert!(!ok, "a source at stratum > 1 whose reference id is a local address is never used");
+        kani::cover!(c.stratum < c.local_stratum && c.reach != 0 && !c.has_bloom && !is_local(&c, c.source_id), "rejected only because of its reference id");
+        kani::cover!(c.n_ips == 2 && c.reference_id == local_id(c.ip1) && c.reference_id != local_id(c.ip0), "second local address");
     }
 }
 
 harness! {
     #[kani::unwind(12)]
-    fn c33_accept_kf_self_stratum1() {
+    fn c33_accept_self_stratum1() {
         let c = any_case();
-        kani::assume(defect_self_stratum1(&c));
-        kani::assume(!defect_refid(&c));
-        check_accept(&c);
+        kani::assume(self_at_stratum1(&c));
+        let ok = check_accept(&c);
+        assert!(!ok, "this daemon itself is never used, also when it reports stratum 1");
+        kani::cover!(c.local_stratum > 1 && c.reach != 0 && !c.has_bloom, "rejected only because it is this daemon");
     }
 }
 
